@@ -1,6 +1,8 @@
 (* Tie lemma for the table-driven square root of the arkworks build: the routine regenerated from
    src/ark_curve/invsqrt.rs (sqrt_ratio_zeta) equals the model Proofs/SqrtSarkar.v reasons about.
-   (The table construction SquareRootTables::new is a hand model, Model/Sqrt.v mk_tables, tied by correspondence.) *)
+   (The table construction SquareRootTables::new is a hand model, Model/Sqrt.v mk_tables, tied by correspondence.)
+   Like the other ties it holds up to ring equalities of the field expressions (the arguments of the exponentiations and of the
+   table look-ups are made syntactically equal by `ring` before the case split on each look-up). *)
 Require Import ZArith List Bool Lia.
 From D377 Require Import Base.FieldSec Model.Decaf Model.Sqrt Model.GenPrelude.
 From D377 Require Generated.Curve.
@@ -8,10 +10,31 @@ Module G := Generated.Curve.
 
 Section Tie.
   Context {AF : AField}.
+  Add Field FTieS : Ffield.
+  Ltac unify_fpow :=
+    repeat match goal with
+    | |- context [fpow ?a ?e] =>
+        match goal with
+        | |- context [fpow ?b e] => lazymatch a with b => fail | _ => replace a with b by ring end
+        end
+    end.
+  Ltac unify_lookup T :=
+    repeat match goal with
+    | |- context [s_lookup T ?a] =>
+        match goal with
+        | |- context [s_lookup T ?b] => lazymatch a with b => fail | _ => replace a with b by ring end
+        end
+    end.
   Lemma tie_ark_sqrt_ratio (T : tables) (N mm : Z) (num den : F) :
     G.ark_sqrt_ratio T N mm num den = ark_sqrt_ratio T mm N num den.
   Proof.
     unfold G.ark_sqrt_ratio, ark_sqrt_ratio, byte. cbv zeta.
-    reflexivity.
+    first
+      [ reflexivity
+      | change (2 ^ 8)%Z with 256%Z; change (2 ^ 7)%Z with 128%Z;
+        repeat match goal with |- context [if feqb ?a ?b then _ else _] => destruct (feqb a b) end; try reflexivity;
+        repeat (rewrite ?Z.shiftr_0_r; unify_fpow; unify_lookup T;
+                match goal with |- context [bind (s_lookup T ?a) _] => destruct (s_lookup T a); cbn [bind] end);
+        try reflexivity; rewrite ?Z.shiftr_0_r; do 2 f_equal; ring ].
   Qed.
 End Tie.
